@@ -30,6 +30,8 @@ trait Fb: Send + Sync {
     fn bytes(&self) -> &[u8];
     fn bytes_mut(&mut self) -> &mut [u8];
     fn image_map(&self) -> Map<u32>;
+    /// as_image().sub_image(area) drawn at the area's own position
+    fn sub_image_map(&self, area: (i32, i32, u32, u32)) -> Map<u32>;
     fn apply(&mut self, a: &Act, mask: u32);
     /// the ordered pixel writes the drawable of `Act::Drawable` makes on an unbounded recording target
     fn drawable_writes(&self, kind: u8, v: u32, mask: u32) -> Vec<(P2, u32)>;
@@ -73,6 +75,14 @@ macro_rules! fb_impl {
                 let img = self.as_image();
                 let mut t = RecD::<$c>::new();
                 Image::new(&img, Point::zero()).draw(&mut t).unwrap();
+                t.map.iter().map(|(k, c)| (*k, raw_u32(*c))).collect()
+            }
+            fn sub_image_map(&self, a: (i32, i32, u32, u32)) -> Map<u32> {
+                use embedded_graphics::image::ImageDrawableExt;
+                let img = self.as_image();
+                let sub = img.sub_image(&rect(a.0, a.1, a.2, a.3));
+                let mut t = RecN::<$c>::new().draining();
+                Image::new(&sub, Point::new(a.0.max(0), a.1.max(0))).draw(&mut t).unwrap();
                 t.map.iter().map(|(k, c)| (*k, raw_u32(*c))).collect()
             }
             fn apply(&mut self, a: &Act, m: u32) {
@@ -236,6 +246,15 @@ fn check_state(s: &St, obs: &mut Obs) {
     let want: Map<u32> = s.model.iter().map(|(k, v)| (*k, *v)).collect();
     if im != want {
         obs.fail("as_image-reproduces-content", map_diff(&im, &want));
+    }
+    // the same through sub-images of as_image(): the whole box, and everything but the first column and row
+    for area in [(0, 0, w as u32, h as u32), (1, 1, w as u32, h as u32), (-1, 0, w as u32, 9)] {
+        let got = f.sub_image_map(area);
+        let wanted: Map<u32> = s.model.iter().filter(|(k, _)| k.0 >= area.0 && k.1 >= area.1 && (k.0 as i64) < area.0 as i64 + area.2 as i64 && (k.1 as i64) < area.1 as i64 + area.3 as i64).map(|(k, v)| (*k, *v)).collect();
+        if got != wanted {
+            obs.fail("sub-image-of-as_image-reproduces-content", format!("area {:?}: {}", area, map_diff(&got, &wanted)));
+            break;
+        }
     }
 }
 
